@@ -81,3 +81,29 @@ def stable(body, du, locals_, sw, tb, bb):
                 # a definition in bb's own terminator comes after bb's statements
                 return False
     return True
+
+
+def loopfree_paths(b, limit=2000):
+    """all paths entry -> return of a loop-free body as ([(switch block, value taken)], blocks visited);
+    raises ValueError on a cycle or too many paths. Arms leading straight to `unreachable` are skipped."""
+    out = []
+
+    def go(bi, taken, seen):
+        if len(out) > limit or bi in seen:
+            raise ValueError("loop or too many paths")
+        t = b.blocks[bi].term
+        seen = seen | {bi}
+        if t.kind == "return":
+            out.append((taken, seen))
+            return
+        if t.kind == "switch":
+            for v, tb in list(t.arms) + [("else", t.otherwise)]:
+                if tb is None or b.blocks[tb].term.kind == "unreachable":
+                    continue
+                go(tb, taken + [(bi, v)], seen)
+            return
+        nxt = t.target if t.kind in ("goto", "call", "drop", "assert") else None
+        if nxt is not None:
+            go(nxt, taken, seen)
+    go(0, [], frozenset())
+    return out
